@@ -1200,7 +1200,15 @@ def expr_sig(body, op, depth=0, seen=None, out=None):
                     if CANON_TRY and not cbs:
                         # the default of `unwrap_or(d)` / `map_or(d, f)` / `ok_or(e)` is part of the value
                         expr_sig(body, a, depth + 1, seen, out)
+            elif re.search(r"::(len|count)$", c.callee) and c.args and not (c.res or c.callee).startswith("ckb_"):
+                # the size of a collection: name the collection as well (`indexes().len()` and `distinct_indexes.len()` are different quantities)
+                out.append("leaf:call:" + nm)
+                expr_sig(body, c.args[0], depth + 1, seen, out)
             else:
+                # collecting into a set deduplicates: `xs.iter().collect::<HashSet<_>>().len()` is not `xs.len()` (atoms drop a plain `collect`
+                # as plumbing, this one is a narrowing step)
+                if nm.endswith("::collect") and re.search(r"(Hash|BTree)Set<", str(getattr(c, "ga", "") or "") + " " + str((body.rec.get("locals") or [""] * (c.dest[0] + 1))[c.dest[0]] if c.dest else "")):
+                    nm = nm + "_into_set"
                 out.append("leaf:call:" + nm)
     return out
 
